@@ -9,6 +9,7 @@ import (
 	"runtime"
 	"sync"
 	"sync/atomic"
+	"time"
 
 	"github.com/prometheus/client_golang/prometheus"
 	"github.com/prometheus/client_golang/prometheus/vsched"
@@ -316,6 +317,11 @@ func runC01(c *cli.Ctx) error {
 					if r.Chance(1, 2) && len(progs[1]) > 1 { // two fractions that add up to a whole number, raced by a reader
 						progs[1][0] = op{kind: 1, v: 0.5}
 						progs[1][1] = op{kind: 1, v: []float64{0.5, 1.5}[r.Intn(2)]}
+					} else if r.Chance(1, 2) && len(progs[1]) > 1 {
+						// a negative amount (must panic, whatever was accumulated before), also one that is smaller than
+						// half an ulp of the fractional accumulator
+						progs[1][0] = op{kind: 1, v: []float64{1235.5678, 0.5, 1e15 + 0.5}[r.Intn(3)]}
+						progs[1][1] = op{kind: []int{1, 3, 4}[r.Intn(3)], v: []float64{-1e-14, -1e-18, -5e-324, -1e-10, -0.5, -1, math.Inf(-1)}[r.Intn(7)]}
 					}
 				}
 			}
@@ -423,6 +429,23 @@ func runC01(c *cli.Ctx) error {
 				cs[i] = emit.Tup(emit.I(cr.tid), emit.I(cr.idx), cr.ret, emit.Z(cr.inv), emit.Z(cr.res))
 			}
 			w.Add(emit.Tup(emit.I(kind), emit.L(ps), emit.L(nil), emit.L(nil), emit.L(cs), emit.I(0)), true, fmt.Sprintf("threads:%d", nthreads))
+		}
+		if gauge {
+			// SetToCurrentTime is a Set of a clock reading taken during the call (seconds, with its sub-second part)
+			bad := 0
+			g := prometheus.NewGauge(prometheus.GaugeOpts{Name: "t"})
+			for i := 0; i < 20; i++ {
+				before := float64(time.Now().UnixNano()) / 1e9
+				g.SetToCurrentTime()
+				after := float64(time.Now().UnixNano()) / 1e9
+				if v := gaugeVal(g); v < before-1e-6 || v > after+1e-6 {
+					bad++
+				}
+				time.Sleep(time.Duration(1+i) * 7 * time.Millisecond)
+			}
+			if bad > 0 {
+				w.Extra["direct_failures"] = []map[string]interface{}{{"index": -1, "what": fmt.Sprintf("%d of 20 SetToCurrentTime calls exposed a value that is no clock reading taken during the call", bad)}}
+			}
 		}
 		if err := w.Flush(); err != nil {
 			return err
